@@ -214,6 +214,20 @@ pub fn battery(pop: &RPop, k: &Knobs, visible: &BTreeSet<usize>, n_visible_tx: u
             c.text = "FIND(?a.id, ?a.confidence) WHERE { ?a ASSERTION {} } AS OF SEQ :s ORDER BY ?a.confidence ASC".into();
             c.as_of = Some(t);
             v.push(c);
+            // direct loads at a past coordinate (by id, through tuple endpoints), aimed at ANY
+            // concept of the population - also one that was classified out of the reader's reach
+            // after that coordinate (in the world without it the id was never assigned): the read
+            // is authorized on the element as it is governed now (seeded change C19-3)
+            let concepts = pop.of_kind(Kind::Concept);
+            if !concepts.is_empty() {
+                let i = concepts[vf_core::pick_idx(x.wrapping_mul(31).wrapping_add(17), concepts.len())];
+                let mut c = cmd("as_of", "FIND(?x.id, ?x.name, ?x.attributes) WHERE { ?x CONCEPT {id: :id} } AS OF SEQ :s").p("id", P::Id(i)).p("s", P::VisibleSeq(t));
+                c.as_of = Some(t);
+                v.push(c);
+            }
+            let mut c = cmd("as_of", "FIND(?s.name, ?pr, ?o.name) WHERE { ?p (?s, ?pr, ?o) } AS OF SEQ :s").p("s", P::VisibleSeq(t));
+            c.as_of = Some(t);
+            v.push(c);
         }
     }
     // export
